@@ -250,7 +250,7 @@ theorem mpi_armTtl_svc (s : Stack) (ttl : Nat) (a : Addr) (k : SvcKey) : mpi (s.
 theorem mir_foundRefresh (s : Stack) (ttl : Nat) (a : Addr) (k : SvcKey) (hi : MirInv s) : MirInv (s.foundRefresh ttl a k) := by
   unfold foundRefresh
   simp only []
-  apply mir_frame (mpi_with_found _ _)
+  apply mir_frame (mpi_with_found_refreshLog _ _ _)
   apply mir_frame (mpi_armTtl_svc _ _ _ _)
   split
   · exact mir_frame ((mpi_cancelTimer_svcFor _ _ _ _).trans (mpi_with_found _ _)) hi
